@@ -26,6 +26,8 @@ template std::size_t CDNS::CdnsExporter::rotate_output<std::string>(const std::s
 template std::size_t CDNS::CdnsExporter::rotate_output<int>(const int&, bool);
 template void CDNS::CdnsEncoder::rotate_output<std::string>(const std::string&);
 template void CDNS::CdnsEncoder::rotate_output<int>(const int&);
+template CDNS::CdnsExporter::CdnsExporter(CDNS::FilePreamble&, const std::string&, CDNS::CborOutputCompression);
+template CDNS::CdnsExporter::CdnsExporter(CDNS::FilePreamble&, const int&, CDNS::CborOutputCompression);
 '''
 
 
